@@ -44,6 +44,10 @@ def solve(model, sname='def', **kw):
         if sname == 'def':
             model.solve(display=False, **kw)
         else:
+            if sname == 'grb':
+                # Gurobi's default barrier tolerance for QCPs (1e-6) stops visibly early on some
+                # small SOC programs; outside C11 the harness asks for a tight one
+                kw.setdefault('params', {'BarQCPConvTol': 1e-10})
             model.solve(s, display=False, **kw)
 
 
